@@ -182,6 +182,35 @@ def run_impl(text: str, cuts: typing.List[int], procs: typing.List[list]) -> str
     return out.getvalue()
 
 
+def run_aborted(text: str, cuts: typing.List[int], after: int, procs: typing.List[list]) -> bool:
+    """
+    A file whose chunk source (the template, a filter, a copied resource) raises after ``after`` chunks - usually in the
+    middle of a line. Nothing of it may reach the next file written in this process. Returns whether it raised.
+    """
+    from nunavut.jinja import CodeGenerator
+
+    fn = getattr(CodeGenerator, "_generate_with_line_buffer", None)
+    if fn is None:
+        raise proc.HarnessError("seam missing: CodeGenerator._generate_with_line_buffer")
+    bounds = [0] + list(cuts) + [len(text)]
+
+    class TemplateError(Exception):
+        pass
+
+    def chunks() -> typing.Iterator[str]:
+        for i in range(len(bounds) - 1):
+            if i >= after:
+                raise TemplateError("chunk source fails")
+            yield text[bounds[i] : bounds[i + 1]]
+        raise TemplateError("chunk source fails at its end")
+
+    try:
+        fn(io.StringIO(), chunks(), make_procs(procs))
+    except TemplateError:
+        return True
+    return False
+
+
 def cut_classes(text: str, cuts: typing.List[int]) -> typing.Tuple[str, ...]:
     cl = []
     prev = None
@@ -315,9 +344,23 @@ def run_case(case: dict, ctx: dict) -> dict:
             violations.append(v)
             executed.setdefault("failing_units", []).append(unit)
 
-    def one_unit(text: str, cuts: typing.List[int], procs: typing.List[list]) -> None:
+    def one_unit(text: str, cuts: typing.List[int], procs: typing.List[list], abort: typing.Optional[dict] = None) -> None:
         nonlocal evaluations
         evaluations += 1
+        if abort is not None:
+            # the unit alone; then an earlier file of this process dies in its chunk source; then the unit again (a new file)
+            v0 = check_unit(text, cuts, procs)
+            if v0 is not None:
+                record(v0, {"text": text, "cuts": cuts, "procs": procs})
+                return
+            if run_aborted(abort["text"], abort["cuts"], abort["after"], abort.get("procs", procs)):
+                bump("probes", "earlier_file_aborted_by_its_chunk_source")
+            v = check_unit(text, cuts, procs)
+            if v is not None:
+                v["signature"] = "%s:unit:%s:after-file-aborted-in-chunk-source" % (PROP, "+".join(p[0] for p in procs) or "none")
+                v["detail"]["abort"] = abort
+                record(v, {"text": text, "cuts": cuts, "procs": procs, "abort": abort})
+            return
         cc = cut_classes(text, cuts)
         states.add("%s|%s" % (",".join(cc), procs_name(procs)))
         for c in cc:
@@ -333,7 +376,7 @@ def run_case(case: dict, ctx: dict) -> dict:
                 evaluations += 1
                 record(check_copy(u["text"], u["procs"], ctx["scratch"]), u)
             else:
-                one_unit(u["text"], u["cuts"], u["procs"])
+                one_unit(u["text"], u["cuts"], u["procs"], u.get("abort"))
         executed = {"label": case.get("label"), "hash_seed": case.get("hash_seed", 0), "mode": "units", "units": case["units"]}
     elif mode == "allcuts":
         for text in case["texts"]:
@@ -360,7 +403,13 @@ def run_case(case: dict, ctx: dict) -> dict:
             text = _rand_text(ru)
             cuts = _rand_cuts(ru, text)
             procs = ru.choice(PROC_LISTS)
-            one_unit(text, cuts, procs)
+            abort = None
+            if ru.chance(1, 6):
+                ra = ru.sub("abort")
+                t0 = _rand_text(ra) or "x"
+                c0 = _rand_cuts(ra, t0)
+                abort = {"text": t0, "cuts": c0, "after": ra.below(len(c0) + 2)}
+            one_unit(text, cuts, procs, abort)
             if sample is None and cuts and "\n" in text:
                 sample = {"text": text, "cuts": cuts, "procs": procs}
         bump("ops", "seeded-units", case["n"])
